@@ -235,7 +235,9 @@ Path(prefix, n) == IF prefix = "" THEN n ELSE prefix \o "/" \o n
 (* Running.  RunProg is the whole run of one (sub)graph: a deterministic   *)
 (* function of program, provided values, invocation counters and mode.     *)
 (* Results:                                                                *)
-(*   [status, vals, err, pause, steps, w, calls, done]                     *)
+(*   [status, vals, err, pause, pre, steps, w, calls, done]                *)
+(*   pre = values at the start of the last step (lower bound of a partial *)
+(*   result)                                                               *)
 (*   status \in {"completed", "failed", "paused"}                          *)
 (*   err = [path, kind] with kind \in {"body", "infinite"} (or NoErr)      *)
 (***************************************************************************)
@@ -317,20 +319,20 @@ StepFold(pr, prefix, snap, acc, rs, i, mode) ==
                  ELSE [acc EXCEPT !.st = stc]
      IN StepFold(pr, prefix, snap, acc1, rs, i + 1, mode)
 
-Result(status, st, err, pause) ==
-  [status |-> status, vals |-> st.vals, err |-> err, pause |-> pause,
+Result(status, st, err, pause, pre) ==
+  [status |-> status, vals |-> st.vals, err |-> err, pause |-> pause, pre |-> pre,
    steps |-> st.steps, w |-> st.w, calls |-> st.w.calls, done |-> st.w.done]
 
 Loop(pr, prefix, st, mode, unused) ==
   LET rs == ReadySeq(pr, st, mode) IN
-  IF rs = <<>> THEN Result("completed", st, NoErr, NoPause)
-  ELSE IF st.steps >= pr.max_iter THEN Result("failed", st, [path |-> prefix, kind |-> "infinite"], NoPause)
+  IF rs = <<>> THEN Result("completed", st, NoErr, NoPause, st.vals)
+  ELSE IF st.steps >= pr.max_iter THEN Result("failed", st, [path |-> prefix, kind |-> "infinite"], NoPause, st.vals)
   ELSE LET snap == [st EXCEPT !.dec = DecClean(pr, st)]
            acc  == StepFold(pr, prefix, snap,
                             [st |-> snap, first |-> "none", err |-> NoErr, pause |-> NoPause], rs, 1, mode)
            obs  == [snap EXCEPT !.w = acc.st.w]
-       IN IF acc.first = "fail" THEN Result("failed", acc.st, acc.err, NoPause)
-          ELSE IF acc.first = "pause" THEN Result("paused", obs, NoErr, acc.pause)  \* pre-step state
+       IN IF acc.first = "fail" THEN Result("failed", acc.st, acc.err, NoPause, snap.vals)
+          ELSE IF acc.first = "pause" THEN Result("paused", obs, NoErr, acc.pause, snap.vals)  \* pre-step state
           ELSE Loop(pr, prefix, [acc.st EXCEPT !.steps = st.steps + 1], mode, unused)
 
 \* provided: seq of <<name, value>>
